@@ -86,6 +86,12 @@ M = [
  ('m_c33_nocache', 'C33', 'cylc/flow/xtrigger_mgr.py',
   "        self.sat_xtrig[sig] = results\n\n        self.do_housekeeping = True",
   "        self.do_housekeeping = True"),
+ ('m_c32_manual', 'C32', 'cylc/flow/task_pool.py',
+  "                and itask.state(TASK_STATUS_WAITING)\n\n                # check if this task is clock expired",
+  "                and itask.state(TASK_STATUS_WAITING, TASK_STATUS_FAILED, TASK_STATUS_RUNNING)\n\n                # check if this task is clock expired"),
+ ('m_c32_early', 'C32', 'cylc/flow/task_proxy.py',
+  "            or time() < self.expire_time  # not time yet",
+  "            or time() < self.expire_time - 7200  # not time yet"),
  ('m_c09_started_back', 'C09', 'cylc/flow/task_events_mgr.py',
   "            if flag == self.FLAG_RECEIVED and itask.state.is_gt(\n                TASK_STATUS_RUNNING\n            ):\n                # Already running.\n                return True",
   "            if False:\n                # Already running.\n                return True"),
